@@ -32,6 +32,8 @@ def scenarios(ctx):
     for k in ["piggy", "separate", "dupack", "reset", "silent", "cancel"]:
         S.append("scn udp do " + k)
     S.append("scn udp earlyrel 4")
+    S.append("scn udp dupreq 12")
+    S.append("scn udp bwwritedup 3")
     for k in ["ok", "silent"]:
         S.append("scn tcp do " + k)
     for n in [0, 1, 3, 6]:
